@@ -1,5 +1,6 @@
 import JominiModel.Driver.Util
 import JominiModel.Model.Writer
+import JominiModel.Model.WriterSink
 /-
 ops of property C15 (call-token syntax: harness/src/props/c15.rs):
   wcalls <indent_char> <indent_factor> <call>…
@@ -85,6 +86,7 @@ def errStr : WErr → String
   | .stackEmpty => "err:stackempty"
   | .panic => "panic"
   | .fuel => "err:fuel"
+  | .io => "err:io"
 
 def obsStr : Except WErr Obs → String
   | .ok o => s!"{o.depth}/{b01 o.expectingKey}{b01 o.atArrayValue}{b01 o.atUnknownStart}"
@@ -112,6 +114,14 @@ def handle : Handler
     let fac ← f.toNat?
     let calls ← rest.mapM parseCall
     let r := run calls (State.init (UInt8.ofNat ic) fac)
+    let obs := r.2.map obsStr
+    pure (String.intercalate " " ([toHex r.1.out] ++ obs ++ [stStr r.1]))
+  | "wcallsw" :: c :: f :: cap :: rest => do
+    let ic ← c.toNat?
+    let fac ← f.toNat?
+    let cp ← cap.toNat?
+    let calls ← rest.mapM parseCall
+    let r := runSink cp calls (State.init (UInt8.ofNat ic) fac)
     let obs := r.2.map obsStr
     pure (String.intercalate " " ([toHex r.1.out] ++ obs ++ [stStr r.1]))
   | _ => none
